@@ -6,7 +6,7 @@ From Coq Require Import NArith ZArith List Bool.
 From Verif Require Import Num ReactionText Units UnitText Schemas Dict.
 Import ListNotations.
 
-Inductive jv := JStr (s : str) | JBool (b : bool) | JObj (d : list (str * jv)).
+Inductive jv := JStr (s : str) | JBool (b : bool) | JNull | JObj (d : list (str * jv)).
 
 (* ---- units system ---- *)
 Definition write_usys (wr : schema -> list (option jv) -> list (str * jv)) (u : usys) : jv :=
@@ -77,7 +77,7 @@ Section WithFloat.
     match v with
     | JStr t => match read_qty d t with Ok q => Ok (EScalar q) | Err => Err end
     | JObj m => match read_qdict d m with Ok r => Ok (EDict r) | Err => Err end
-    | JBool _ => Err
+    | _ => Err
     end.
   Fixpoint read_bdict (m : list (str * jv)) : res (list (str * bool)) :=
     match m with
@@ -89,7 +89,7 @@ Section WithFloat.
     match v with
     | JBool b => Ok (EScalar b)
     | JObj m => match read_bdict m with Ok r => Ok (EDict r) | Err => Err end
-    | JStr _ => Err
+    | _ => Err
     end.
 
   Definition dimD : dim := {| dS := 2; dT := -1; dQ := 0 |}.
@@ -103,7 +103,7 @@ Section WithFloat.
     | None => Ok parent
     | Some (JStr t) => if str_eqb t k_inherit then Ok parent else if str_eqb t k_default then Ok default_usys else Err
     | Some (JObj d) => read_usys (JObj d)
-    | Some (JBool _) => Err
+    | Some _ => Err
     end.
 
   Definition zero_qty (u : usys) (d : dim) : qty := (zero, (u, d)).
@@ -128,19 +128,60 @@ Section WithFloat.
         end
     | _ => Err
     end.
+  (* ---- reaction: reaction_to_dict / reaction_from_dict; the equation travels as Reaction.to_string() ---- *)
+  Record reaction_obj := { ro_label : option str; ro_eq : side * side; ro_kf : envv qty; ro_kr : envv qty; ro_units : usys }.
+
+  Definition kdim_of (n : Z) : dim := {| dS := 3 * n - 3; dT := -1; dQ := 1 - n |}%Z.
+
+  Definition write_reaction (r : reaction_obj) : jv :=
+    JObj (wr schema_reaction [Some (JStr (print_eq (ro_eq r))); Some (match ro_label r with Some l => JStr l | None => JNull end);
+                             Some (write_envq (ro_kf r)); Some (write_envq (ro_kr r)); Some (write_usys wr (ro_units r))]).
+
+  Definition read_label (f : option jv) : res (option str) :=
+    match f with
+    | None | Some JNull => Ok None
+    | Some (JStr l) => if valid_label l then Ok (Some l) else Err       (* assert_string_is_a_valid_label *)
+    | Some _ => Err
+    end.
+
+  Definition read_reaction (parent : usys) (v : jv) : res reaction_obj :=
+    match v with
+    | JObj d =>
+        match read_fields jv schema_reaction d with
+        | Ok [Some (JStr t); flabel; fkf; fkr; funits] =>
+            match parse_eq t, read_label flabel, read_units_field parent funits with
+            | Some e, Ok l, Ok u =>
+                match (match fkf with Some x => read_envq (kdim_of (side_order (fst e))) x | None => Ok (EScalar (zero_qty u (kdim_of (side_order (fst e))))) end),
+                      (match fkr with Some x => read_envq (kdim_of (side_order (snd e))) x | None => Ok (EScalar (zero_qty u (kdim_of (side_order (snd e))))) end) with
+                | Ok kf, Ok kr => Ok {| ro_label := l; ro_eq := e; ro_kf := kf; ro_kr := kr; ro_units := u |}
+                | _, _ => Err
+                end
+            | _, _, _ => Err
+            end
+        | _ => Err
+        end
+    | _ => Err
+    end.
 End WithFloat.
 
 (* ---- executable comparison of JSON values, for the correspondence ---- *)
+(* JSON objects are compared as key -> value maps (the order of keys is not part of a JSON object) *)
 Fixpoint jv_eqb (a b : jv) : bool :=
   match a, b with
   | JStr s, JStr t => str_eqb s t
   | JBool x, JBool y => Bool.eqb x y
+  | JNull, JNull => true
   | JObj d, JObj e =>
-      (fix go (d e : list (str * jv)) : bool :=
-         match d, e with
-         | [], [] => true
-         | (k, v) :: d', (k', v') :: e' => str_eqb k k' && jv_eqb v v' && go d' e'
-         | _, _ => false
-         end) d e
+      Nat.eqb (length d) (length e) &&
+      (fix all (d : list (str * jv)) : bool :=
+         match d with
+         | [] => true
+         | (k, v) :: d' =>
+             (fix look (e : list (str * jv)) : bool :=
+                match e with
+                | [] => false
+                | (k', v') :: e' => if str_eqb k k' then jv_eqb v v' else look e'
+                end) e && all d'
+         end) d
   | _, _ => false
   end.
